@@ -81,3 +81,62 @@ func VxC19ReconstructFromSubset() {
 	vx.Assert(len(localShard) == 1 && bytes.Equal(localShard[0], shards[local]), "local-shard-is-the-senders-shard")
 	vx.Assert(proof.Verify(&root, shards[local], uint32(local)), "local-proof-verifies")
 }
+
+// vxUnitsFor pads and shards message m as the publisher does and returns the units a receiver holds
+// (missing = the index left out, -1 none) together with the shards.
+func vxUnitsFor(m []byte, tag string, missing int) ([]*Unit, [][]byte) {
+	const d, p = 2, 2
+	padded := PadMessage(m, d)
+	var shards [][]byte
+	if vx.InEngine() {
+		sz := len(padded) / d
+		for i := 0; i < d; i++ {
+			shards = append(shards, append([]byte(nil), padded[i*sz:(i+1)*sz]...))
+		}
+		for i := 0; i < p; i++ {
+			shards = append(shards, vx.Bytes(tag+"parity", sz))
+		}
+	} else {
+		var err error
+		shards, err = reedsolomon.EncodeData(append([]byte(nil), padded...), d, p)
+		if err != nil {
+			panic(err)
+		}
+	}
+	root, tree := merkle.New(shards)
+	units := make([]*Unit, d+p)
+	for i := range units {
+		if i != missing {
+			units[i] = &Unit{MessageRoot: MessageRoot(root), MerkleProof: tree[i], ShardIndex: ShardIndex(i),
+				ShardData: []Shard{append([]byte(nil), shards[i]...)}}
+		}
+	}
+	return units, shards
+}
+
+// C19-H3b: a delivered message stays what it was. The node reconstructs message A and hands it on (the
+// application holds on to it), then reconstructs message B from another publisher. A must still be A -
+// whatever buffers the reconstruction takes from a pool or keeps between calls: "the reconstructed message
+// is bit-for-bit the original" for as long as the receiver holds it, not only at the moment of return.
+func VxC19DeliveredMessageIsNotTouchedByLaterReconstructions() {
+	vx.Bound("two messages of 1..3 and 0..3 symbolic bytes; 2+2 shards; one unit of each possibly missing; A reconstructed and kept, then B reconstructed, then A compared")
+	if vx.InEngine() {
+		vx.Stub("github.com/NethermindEth/juno/consensus/propeller/reedsolomon.RecoverData", vxRecoverSpec)
+	}
+	na := 1 + vx.Choice("na", 3)
+	nb := vx.Choice("nb", 4)
+	ma := vx.Bytes("ma", na)
+	mb := vx.Bytes("mb", nb)
+	ua, sa := vxUnitsFor(ma, "a.", vx.Choice("a.missing", 3)-1)
+	vxOriginalShards = sa
+	gotA, _, _, err := ConstructMessageFromUnits(ua, 0, 2, 2)
+	vx.Assert(err == nil && bytes.Equal(gotA, ma), "reconstructed-message-is-the-message")
+	if err != nil {
+		return
+	}
+	ub, sb := vxUnitsFor(mb, "b.", vx.Choice("b.missing", 3)-1)
+	vxOriginalShards = sb
+	gotB, _, _, err := ConstructMessageFromUnits(ub, 1, 2, 2)
+	vx.Assert(err == nil && bytes.Equal(gotB, mb), "reconstructed-message-is-the-message")
+	vx.Assert(bytes.Equal(gotA, ma), "delivered-message-unchanged-by-a-later-reconstruction")
+}
